@@ -84,11 +84,21 @@ def gen_wf_mrs(rng, max_nouns=2, shuffle_vars=False, shuffle_rels=False):
         vargs.append([role, x])
     if not nouns or rng.random() < 0.3:
         vargs.append([roles[len(nouns)] if len(nouns) < 3 else "ARG4", vg.new(rng.choice("iup"))])
+    # control-like shape: the verb also takes the label of one of its own arguments through a hole,
+    # so that argument's predication lies below the verb's own scopal argument
+    ctrl = False
+    if nouns and rng.random() < 0.12:
+        hole = vg.new("h")
+        role = roles[len(vargs) - 1] if len(vargs) - 1 < 3 else "ARG4"
+        if role not in [a[0] for a in vargs]:
+            vargs.append([role, hole])
+            hcons.append([hole, "qeq", rng.choice(nouns)[1]])
+            ctrl = True
     rels.append({"pred": rng.choice(VERBS), "label": vlbl, "args": vargs})
     vars_[e] = [["TENSE", rng.choice(["past", "pres"])]] + rng.sample(EPROPS[3:], rng.randrange(0, 2))
     cur_lbl, cur_e = vlbl, e
     # adverb on the verb
-    if rng.random() < 0.3:
+    if rng.random() < 0.3 or ctrl:
         e2 = vg.new("e")
         rels.append({"pred": rng.choice(ADVS), "label": vlbl, "args": [["ARG0", e2], ["ARG1", e]]})
     # scopal operators above the verb
